@@ -351,6 +351,21 @@ def r19_5(run):
                    "%s.%s is read from retrieve_u(load_std_type(net, <std type>, 'pipe'))" % (fname, col), w, detail=tshow(v)[:160] if v else None)
         run.ob("%s|loads-through-retrieve_u" % fname, loaded is not None,
                "the parameters are load_std_type(...) passed through retrieve_u", w)
+        # one std type per element: the list collected for column c is filled from entry c of that type's parameters
+        for e in r.stores():
+            if not (e.loops and len(e.index) == 1 and e.index[0][0] == "c" and e.index[0][1] in ("inner_diameter_mm", "outer_diameter_mm", "k_mm", "u_w_per_m2k")
+                    and e.value[0] == "op" and e.value[1] == "++" and e.value[3][0] == "list" and len(e.value[3][1]) == 1):
+                continue
+            col = e.index[0][1]
+            wrong = []
+            for _c, leaf in leaves(e.value[3][1][0]):
+                m = match(("idx", ("?", "pp"), (("?", "k"),)), leaf)
+                if m is not None and m["k"][0] == "c" and isinstance(m["k"][1], str) \
+                        and any(x[0] == "call" and x[1] == ("f", ru.qualname) for x in walk(m["pp"])) and m["k"][1] != col:
+                    wrong.append(m["k"][1])
+            run.ob("%s|per-type-list|%s" % (fname, col), not wrong,
+                   "the values collected per std type for column %s are the types' %s entries" % (col, col), run.where(f, e.node),
+                   detail="filled from %s" % wrong if wrong else None)
         # overrides inside the dictionary itself (not yet read out): same discipline
         if loaded is not None:
             for x in walk(loaded):
